@@ -177,7 +177,10 @@ func userEntryDecides(c *Ctx, rule string) {
 	_, hit := (&PathQuery{Fn: f, Target: func(x ssa.Instruction) bool { return x == loop.Instrs[0] }, Assume: []Assume{
 		assumeEq("l.Users == nil", false),
 		assumeHas("l.Users[string(cl.Properties.Username)]#1", true),
-		assumeEq("u.Password == hooks/auth.RString(pk.Connect.Password)", true),
+		// the password comparison, however it is spelled (==, bytes.Equal, subtle.ConstantTimeCompare == 1 …)
+		{Match: func(t string) bool {
+			return strings.Contains(t, "u.Password") && strings.Contains(t, "pk.Connect.Password") && !strings.Contains(t, `""`)
+		}, Truth: true},
 		assumeEq(`u.Password == ""`, false),
 	}}).Find()
 	c.ob(rule, "(*hooks/auth.Ledger).AuthOk: a user with an entry and the matching password is decided by the entry, never by the global rules", c.pos(f.Pos()), hit == nil,
